@@ -92,5 +92,14 @@ CHECKS["C16"] = {
     "quick": {"checks": 600, "timeout": 900},
     "thorough": {"checks": 15000, "timeout": 3400, "shards": 8},
 }
+CHECKS["C19"] = {
+    "pkg": "./props/c19",
+    "level": "exploration",
+    "technique": "differential and metamorphic property-based testing (rapid): relic canonicaliser vs JDK exclusive c14n; sign / re-serialise / mutate / verify; JDK XML-DSig validation",
+    "level_text": "Grammar-generated manifests covering every namespace, attribute, text, comment, PI and prolog edge class (switchable individually) are serialised in a drawn style; for a drawn subtree relic's SerializeCanonical must equal the JDK's exclusive canonicaliser byte for byte. Generated manifests are signed as application manifests (RSA-2048/3072, P-256/384/521; SHA-1..512), must verify in relic (and, for the standard SHA-1 URIs, in the JDK's XML-DSig validator), must still verify after a canonical-meaning-preserving re-serialisation (attribute order, quotes, empty-element form, char refs vs literals, CDATA, comments, redundant and unused namespace declarations, prolog) and must fail after one meaning-changing edit outside the Signature. SignatureValue widths, publicKeyToken (independent strong-name computation, RSA) and publisherIdentity (SHA-1 of the issuer key, subject name) are checked. VSIX package signatures (inclusive c14n declared) are validated by the JDK for every key and digest.",
+    "level_note": "Trusts JDK 17 (Apache Santuario canonicalisers, javax.xml.crypto.dsig) and the harness XML generator/re-serialiser (itself property-tested against the JDK). Microsoft's non-standard sha256/384/512 algorithm URIs cannot be validated by the JDK, so there the evidence is relic's verifier plus the canonicaliser differential.",
+    "quick": {"checks": 500, "timeout": 1200},
+    "thorough": {"checks": 12000, "timeout": 3400, "shards": 8},
+}
 for _pid in CHECKS:
     NOT_APPLICABLE.pop(_pid, None)
